@@ -2502,6 +2502,8 @@ impl DnsIncoming {
         // - a pointer
         // - a sequence of labels ending with a pointer"
         loop {
+            #[cfg(feature = "verif-hooks")]
+            crate::verif::tick();
             if offset >= data.len() {
                 return Err(Error::Msg(format!(
                     "read_name: offset: {} data len {}. DnsIncoming: {:?}",
@@ -2770,5 +2772,82 @@ mod tests {
         expected_names.insert("test-service.local".to_string(), 28);
         expected_names.insert("local".to_string(), 41);
         assert_eq!(&packets[0].names, &expected_names);
+    }
+}
+
+/// Read-only accessors for the verification facade (`crate::verif::codec`).
+#[cfg(feature = "verif-hooks")]
+pub(crate) mod verif_view {
+    use super::*;
+    use crate::verif::codec::{QView, RData};
+
+    pub(crate) fn rdata(rec: &dyn DnsRecordExt) -> RData {
+        let any = rec.any();
+        if let Some(a) = any.downcast_ref::<DnsAddress>() {
+            match a.address {
+                IpAddr::V4(ip) => RData::A(ip),
+                IpAddr::V6(ip) => RData::AAAA(ip),
+            }
+        } else if let Some(p) = any.downcast_ref::<DnsPointer>() {
+            RData::Ptr(p.alias.clone())
+        } else if let Some(s) = any.downcast_ref::<DnsSrv>() {
+            RData::Srv {
+                priority: s.priority,
+                weight: s.weight,
+                port: s.port,
+                host: s.host.clone(),
+            }
+        } else if let Some(t) = any.downcast_ref::<DnsTxt>() {
+            RData::Txt(t.text.clone())
+        } else if let Some(h) = any.downcast_ref::<DnsHostInfo>() {
+            RData::HInfo {
+                cpu: h.cpu.clone(),
+                os: h.os.clone(),
+            }
+        } else if let Some(n) = any.downcast_ref::<DnsNSec>() {
+            RData::NSec {
+                next: n.next_domain.clone(),
+                bitmap: n.type_bitmap.clone(),
+            }
+        } else {
+            RData::Other
+        }
+    }
+
+    pub(crate) fn questions(msg: &DnsIncoming) -> Vec<QView> {
+        msg.questions
+            .iter()
+            .map(|q| QView {
+                name: q.entry.name.clone(),
+                ty: q.entry.ty as u16,
+                class: q.entry.class,
+                top_bit: q.entry.cache_flush,
+            })
+            .collect()
+    }
+
+    pub(crate) fn counts(msg: &DnsIncoming) -> [u16; 4] {
+        [
+            msg.num_questions,
+            msg.num_answers,
+            msg.num_authorities,
+            msg.num_additionals,
+        ]
+    }
+
+    pub(crate) fn hinfo(name: &str, class: u16, ttl: u32, cpu: &str, os: &str) -> DnsRecordBox {
+        DnsHostInfo::new(
+            name,
+            RRType::HINFO,
+            class,
+            ttl,
+            cpu.to_string(),
+            os.to_string(),
+        )
+        .boxed()
+    }
+
+    pub(crate) fn add_additional_box(out: &mut DnsOutgoing, record: DnsRecordBox) {
+        out.additionals.push(record);
     }
 }
